@@ -29,6 +29,7 @@ Record config := Config {
   esleep : Z;        (* sleep between empty reads *)
   resets : bool;     (* emptyCount reset by a successful decode? *)
   checks : bool;     (* heartbeat compares Created? *)
+  guard : bool;      (* an empty file counts as stale only if it was not modified within factor * interval? *)
   delta : Z;         (* H-live: heartbeat latency bound *)
   eps : Z            (* H-live: longest truncate -> write gap of a heartbeat (0 on a healthy disk) *)
 }.
@@ -71,7 +72,8 @@ Record state := State {
   cproc : tid -> pid;
   tids : list tid;           (* threads started so far *)
   hb : ino -> hbstate;
-  lastcreate : Z             (* clock reading written by the latest createLockfile *)
+  lastcreate : Z;            (* clock reading written by the latest createLockfile *)
+  mtime : ino -> Z           (* modification time of each inode: set by create, write, truncate *)
 }.
 
 Inductive label :=
@@ -110,17 +112,25 @@ Definition is_stale (t : Z) (created updated : option Z) : bool :=
   end.
 
 (** H-live: time may not pass beyond [delta] after the wake-up time of a live heartbeat *)
-Definition hb_allows (t : Z) (h : hbstate) : bool :=
+Definition hb_allows (s : state) (t : Z) (h : hbstate) : bool :=
   match h with
   | HSleep _ _ due => t <=? due + delta c
-  | HTrunc _ _ _ _ since => t <=? since + eps c
+  | HTrunc _ _ j _ _ => t <=? mtime s j + eps c      (* mtime s j = the instant of the truncate *)
+  | _ => true
+  end.
+(** ... nor beyond [delta] after the O_EXCL create of a live thread that has not yet written
+    the metadata (a live process is not stalled for longer than [delta]) *)
+Definition cs_allows (s : state) (t : Z) (x : cstate) : bool :=
+  match x with
+  | CCreated _ i => t <=? mtime s i + delta c
   | _ => true
   end.
 Definition can_tick (s : state) (d : Z) : bool :=
-  (0 <=? d) && forallb (fun i => hb_allows (now s + d) (hb s i)) (seq 0 (nexti s)).
+  (0 <=? d) && forallb (fun i => hb_allows s (now s + d) (hb s i)) (seq 0 (nexti s)) &&
+  forallb (fun t => cs_allows s (now s + d) (cs s t)) (tids s).
 
 Definition set_cs (s : state) (t : tid) (x : cstate) : state :=
-  State (now s) (file s) (content s) (nexti s) (upd (cs s) t x) (cproc s) (tids s) (hb s) (lastcreate s).
+  State (now s) (file s) (content s) (nexti s) (upd (cs s) t x) (cproc s) (tids s) (hb s) (lastcreate s) (mtime s).
 
 Definition kill_cs (p : pid) (pr : tid -> pid) (f : tid -> cstate) : tid -> cstate :=
   fun t => match f t with
@@ -139,12 +149,12 @@ Definition step (s : state) (l : label) : option state :=
   match l with
   | LTick d =>
       if can_tick s d then
-        Some (State (now s + d) (file s) (content s) (nexti s) (cs s) (cproc s) (tids s) (hb s) (lastcreate s))
+        Some (State (now s + d) (file s) (content s) (nexti s) (cs s) (cproc s) (tids s) (hb s) (lastcreate s) (mtime s))
       else None
   | LStart t p =>
       match cs s t with
       | CIdle => Some (State (now s) (file s) (content s) (nexti s) (upd (cs s) t (CTry 0)) (upd (cproc s) t p)
-                             (t :: tids s) (hb s) (lastcreate s))
+                             (t :: tids s) (hb s) (lastcreate s) (mtime s))
       | _ => None
       end
   | LTryCreate t =>
@@ -154,7 +164,7 @@ Definition step (s : state) (l : label) : option state :=
           | None =>
               let i := nexti s in
               Some (State (now s) (Some i) (upd (content s) i FEmpty) (S i) (upd (cs s) t (CCreated ec i))
-                          (cproc s) (tids s) (upd (hb s) i HNone) (lastcreate s))
+                          (cproc s) (tids s) (upd (hb s) i HNone) (lastcreate s) (upd (mtime s) i (now s)))
           | Some _ => Some (set_cs s t (CExists ec))
           end
       | _ => None
@@ -166,7 +176,7 @@ Definition step (s : state) (l : label) : option state :=
           if lastcreate s <? now s then
             Some (State (now s) (file s) (upd (content s) i (FMeta (Some (now s)) (Some (now s)))) (nexti s)
                         (upd (cs s) t (CHolding i)) (cproc s) (tids s)
-                        (upd (hb s) i (HSleep (cproc s t) (now s) (now s + interval c))) (now s))
+                        (upd (hb s) i (HSleep (cproc s t) (now s) (now s + interval c))) (now s) (upd (mtime s) i (now s)))
           else None
       | _ => None
       end
@@ -178,7 +188,8 @@ Definition step (s : state) (l : label) : option state :=
           | Some i =>
               match content s i with
               | FEmpty =>
-                  if (S ec <? retries c)%nat then Some (set_cs s t (CSleep (S ec) (now s + esleep c)))
+                  if (S ec <? retries c)%nat || (guard c && negb (factor c * interval c <? now s - mtime s i))
+                  then Some (set_cs s t (CSleep (S ec) (now s + esleep c)))
                   else Some (set_cs s t (CStale (S ec)))            (* zero meta: stale *)
               | FGarbage => Some (set_cs s t (CFailed ErrDecode))
               | FMeta cr u =>
@@ -192,7 +203,7 @@ Definition step (s : state) (l : label) : option state :=
   | LRemove t =>
       match cs s t with
       | CStale ec =>
-          Some (State (now s) None (content s) (nexti s) (upd (cs s) t (CTry ec)) (cproc s) (tids s) (hb s) (lastcreate s))
+          Some (State (now s) None (content s) (nexti s) (upd (cs s) t (CTry ec)) (cproc s) (tids s) (hb s) (lastcreate s) (mtime s))
       | _ => None
       end
   | LWake t =>
@@ -208,7 +219,7 @@ Definition step (s : state) (l : label) : option state :=
   | LUnlock t =>
       match cs s t with
       | CHolding _ =>
-          Some (State (now s) None (content s) (nexti s) (upd (cs s) t CReleased) (cproc s) (tids s) (hb s) (lastcreate s))
+          Some (State (now s) None (content s) (nexti s) (upd (cs s) t CReleased) (cproc s) (tids s) (hb s) (lastcreate s) (mtime s))
       | _ => None
       end
   | LHbWake i =>
@@ -216,17 +227,17 @@ Definition step (s : state) (l : label) : option state :=
       | HSleep p cr due =>
           if due <=? now s then
             match file s with
-            | None => Some (State (now s) (file s) (content s) (nexti s) (cs s) (cproc s) (tids s) (upd (hb s) i HDone) (lastcreate s))
+            | None => Some (State (now s) (file s) (content s) (nexti s) (cs s) (cproc s) (tids s) (upd (hb s) i HDone) (lastcreate s) (mtime s))
             | Some j =>
                 match content s j with
                 | FMeta fcr _ =>
                     if checks c && negb (opt_eqb fcr (Some cr)) then
-                      Some (State (now s) (file s) (content s) (nexti s) (cs s) (cproc s) (tids s) (upd (hb s) i HDone) (lastcreate s))
+                      Some (State (now s) (file s) (content s) (nexti s) (cs s) (cproc s) (tids s) (upd (hb s) i HDone) (lastcreate s) (mtime s))
                     else
                       Some (State (now s) (file s) (upd (content s) j FEmpty) (nexti s) (cs s) (cproc s) (tids s)
-                                  (upd (hb s) i (HTrunc p cr j fcr (now s))) (lastcreate s))
+                                  (upd (hb s) i (HTrunc p cr j fcr (now s))) (lastcreate s) (upd (mtime s) j (now s)))
                 | _ => (* json.Unmarshal fails: terminate *)
-                    Some (State (now s) (file s) (content s) (nexti s) (cs s) (cproc s) (tids s) (upd (hb s) i HDone) (lastcreate s))
+                    Some (State (now s) (file s) (content s) (nexti s) (cs s) (cproc s) (tids s) (upd (hb s) i HDone) (lastcreate s) (mtime s))
                 end
             end
           else None
@@ -236,12 +247,12 @@ Definition step (s : state) (l : label) : option state :=
       match hb s i with
       | HTrunc p cr j fcr _ =>
           Some (State (now s) (file s) (upd (content s) j (FMeta fcr (Some (now s)))) (nexti s) (cs s) (cproc s) (tids s)
-                      (upd (hb s) i (HSleep p cr (now s + interval c))) (lastcreate s))
+                      (upd (hb s) i (HSleep p cr (now s + interval c))) (lastcreate s) (upd (mtime s) j (now s)))
       | _ => None
       end
   | LKill p =>
       Some (State (now s) (file s) (content s) (nexti s) (kill_cs p (cproc s) (cs s)) (cproc s) (tids s)
-                  (kill_hb p (hb s)) (lastcreate s))
+                  (kill_hb p (hb s)) (lastcreate s) (mtime s))
   end.
 
 Fixpoint run (s : state) (ls : list label) : option state :=
@@ -445,13 +456,13 @@ Fixpoint simulate (fuel : nat) (horizon : Z) (m : sim) : sim :=
 
 End WithConfig.
 
-Definition init_state (f : option fcontent) (last : Z) : state :=
+Definition init_state (f : option fcontent) (last : Z) (mt : Z) : state :=
   State 0 (match f with Some _ => Some O | None => None end)
         (fun _ => match f with Some x => x | None => FEmpty end)
         (match f with Some _ => 1%nat | None => O end)
-        (fun _ => CIdle) (fun _ => O) [] (fun _ => HNone) last.
+        (fun _ => CIdle) (fun _ => O) [] (fun _ => HNone) last (fun _ => mt).
 
-Definition init : state := init_state None (-1).
+Definition init : state := init_state None (-1) 0.
 
 (** ** two lock files side by side (shared clock, shared processes) *)
 Inductive label2 := L1 (l : label) | L2 (l : label) | LBoth (l : label).
